@@ -66,6 +66,20 @@ Section ClassLevel.
     destruct Hex as [c Hf]. apply find_some in Hf as [Hc Hi]. apply negb_true_iff in Hi.
     specialize (H (fun _ => x) c Hc). rewrite unimported_class_lost in H by exact Hi. congruence.
   Qed.
+  (* exact characterisation: when the derived indexes are consistent (InitGenesis rebuilds exactly what the
+     store holds), a class survives the re-import for every state IF AND ONLY IF InitGenesis writes it; the
+     lost classes are exactly the classes of the generated table with [c_imported = false] *)
+  Lemma class_roundtrip_exact : forall x : content, x <> empty ->
+    forall c, (forall s : mstate content, c_exported c = false -> s c = derive c (exp s)) ->
+    ((forall s : mstate content, reimp s c = s c) <-> c_imported c = true).
+  Proof.
+    intros x Hx c Hd. split.
+    - intro H. destruct (c_imported c) eqn:Hi; [reflexivity|]. exfalso.
+      specialize (H (fun _ => x)). rewrite unimported_class_lost in H by exact Hi. congruence.
+    - intros Hi s. destruct (c_exported c) eqn:He.
+      + apply covered_class_preserved. unfold covered. rewrite He, Hi. reflexivity.
+      + apply derived_class_preserved; auto.
+  Qed.
 End ClassLevel.
 
 (* every class whose status is "lost" is a class InitGenesis never writes (so, by
@@ -779,6 +793,214 @@ Qed.
 (* before the first block the export itself panics *)
 Lemma distr_export_before_first_block : forall s, d_proposer s = None -> reimport_distr s = Panic "previous proposer not set".
 Proof. intros s H. unfold reimport_distr, export_distr. rewrite H. reflexivity. Qed.
+
+(* ================================================================ 2i. histories: identity registrar *)
+
+Inductive id_op := IRegister (owner_key : Z) | IDelete (id : Z).
+(* RegisterIdentityRecords for one key: an existing (owner, key) keeps its id (the value changes, which the
+   abstraction does not record), a new one gets last + 1; DeleteIdentityRecordById removes the record and its
+   index entry *)
+Definition id_step (s : id_state) (o : id_op) : id_state :=
+  match o with
+  | IRegister k =>
+      match zlookup k (id_index s) with
+      | Some _ => s
+      | None => mkId (id_records s ++ [(id_last s + 1, k)]) (upsert k (id_last s + 1) (id_index s)) (id_last s + 1)
+      end
+  | IDelete i =>
+      match zlookup i (id_records s) with
+      | None => s
+      | Some k => mkId (filter (fun r => negb (fst r =? i)) (id_records s)) (filter (fun e => negb (fst e =? k)) (id_index s)) (id_last s)
+      end
+  end.
+Definition id_init : id_state := mkId [] [] 0.
+Definition id_run (ops : list id_op) : id_state := fold_left id_step ops id_init.
+
+Definition id_inv (s : id_state) : Prop :=
+  id_wf s /\ (forall i k, In (i, k) (id_records s) -> 1 <= i <= id_last s) /\ 0 <= id_last s /\ NoDup (map fst (id_index s)).
+
+Lemma zlookup_in : forall l k v, zlookup k l = Some v -> In (k, v) l.
+Proof.
+  induction l as [|[k' v'] l IH]; cbn; intros k v H; [discriminate|].
+  destruct (Z.eqb_spec k' k) as [->|Hne]; [injection H as ->; left; reflexivity|right; apply IH; assumption].
+Qed.
+Lemma zlookup_none_notin : forall l k, zlookup k l = None -> ~ In k (map fst l).
+Proof.
+  induction l as [|[k' v'] l IH]; cbn; intros k H; [tauto|].
+  destruct (Z.eqb_spec k' k) as [->|Hne]; [discriminate|]. intros [E|Hin]; [congruence|]. exact (IH _ H Hin).
+Qed.
+Lemma NoDup_map_filter : forall {A B} (f : A -> B) (p : A -> bool) l, NoDup (map f l) -> NoDup (map f (filter p l)).
+Proof.
+  induction l as [|a l IH]; cbn; intro H; [constructor|]. inv H.
+  destruct (p a); cbn; [constructor|]; auto. intro Hin. apply H2. apply in_map_iff in Hin as [b [E Hb]]. apply filter_In in Hb as [Hb _].
+  rewrite <- E. apply in_map. assumption.
+Qed.
+
+Lemma nodup_fst_unique : forall (l : list (Z * Z)) i a b, NoDup (map fst l) -> In (i, a) l -> In (i, b) l -> a = b.
+Proof.
+  induction l as [|[x y] l IH]; cbn; intros i a b Hn Ha Hb; [tauto|]. inv Hn.
+  destruct Ha as [Ea|Ha], Hb as [Eb|Hb]; try (inv Ea); try (inv Eb); auto.
+  - exfalso. apply H1. change i with (fst (i, b)). apply in_map. assumption.
+  - exfalso. apply H1. change i with (fst (i, a)). apply in_map. assumption.
+  - eapply IH; eassumption.
+Qed.
+Lemma nodup_snd_unique : forall (l : list (Z * Z)) k a b, NoDup (map snd l) -> In (a, k) l -> In (b, k) l -> a = b.
+Proof.
+  induction l as [|[x y] l IH]; cbn; intros k a b Hn Ha Hb; [tauto|]. inv Hn.
+  destruct Ha as [Ea|Ha], Hb as [Eb|Hb]; try (inv Ea); try (inv Eb); auto.
+  - exfalso. apply H1. change k with (snd (b, k)). apply in_map. assumption.
+  - exfalso. apply H1. change k with (snd (a, k)). apply in_map. assumption.
+  - eapply IH; eassumption.
+Qed.
+
+Lemma id_step_inv : forall s o, id_inv s -> id_inv (id_step s o).
+Proof.
+  intros s o Hinv. pose proof Hinv as ((Hn & Hk & Hx) & Hr & Hl & Hi).
+  destruct o as [k|i]; cbn [id_step].
+  - destruct (zlookup k (id_index s)) eqn:E; [exact Hinv|].
+    assert (Hkn : ~ In k (map snd (id_records s))).
+    { intro Hin. apply in_map_iff in Hin as [[i' k'] [E' Hin]]. cbn in E'; subst k'.
+      apply (zlookup_none_notin _ _ E). change k with (fst (k, i')). apply in_map. apply Hx.
+      change (k, i') with (swap_pair (i', k)). apply in_map. assumption. }
+    assert (Hin' : ~ In (id_last s + 1) (map fst (id_records s))).
+    { intro Hin. apply in_map_iff in Hin as [[i' k'] [E' Hin]]. cbn in E'; subst i'. apply Hr in Hin. lia. }
+    repeat split; cbn [id_records id_index id_last].
+    + rewrite map_app. cbn. apply NoDup_app_one; assumption.
+    + rewrite map_app. cbn. apply NoDup_app_one; assumption.
+    + intro H. rewrite (upsert_fresh _ _ _ (zlookup_none_notin _ _ E)) in H. rewrite map_app. apply in_or_app.
+      apply in_app_or in H as [H|[<-|[]]]; [left; apply Hx; assumption|right; left; reflexivity].
+    + intro H. rewrite (upsert_fresh _ _ _ (zlookup_none_notin _ _ E)). rewrite map_app in H. apply in_or_app.
+      apply in_app_or in H as [H|[<-|[]]]; [left; apply Hx; assumption|right; left; reflexivity].
+    + apply in_app_or in H as [H|[E'|[]]]; [apply Hr in H; lia|injection E' as <- _; lia].
+    + apply in_app_or in H as [H|[E'|[]]]; [apply Hr in H; lia|injection E' as <- _; lia].
+    + lia.
+    + rewrite (upsert_fresh _ _ _ (zlookup_none_notin _ _ E)). rewrite map_app. cbn. apply NoDup_app_one; [assumption|apply zlookup_none_notin; assumption].
+  - destruct (zlookup i (id_records s)) as [k|] eqn:E; [|exact Hinv].
+    pose proof (zlookup_in _ _ _ E) as Hik.
+    repeat split; cbn [id_records id_index id_last].
+    + apply NoDup_map_filter; assumption.
+    + apply NoDup_map_filter; assumption.
+    + intro H. apply filter_In in H as [H Hne]. apply Hx in H. apply in_map_iff in H as [[i' k'] [E' Hin]].
+      apply in_map_iff. exists (i', k'). split; [assumption|]. apply filter_In. split; [assumption|]. cbn.
+      destruct (Z.eqb_spec i' i) as [->|]; [|reflexivity]. exfalso.
+      (* the same id means the same key, which was filtered out *)
+      assert (k' = k) by exact (nodup_fst_unique (id_records s) i k' k Hn Hin Hik).
+      subst k'. rewrite <- E' in Hne. cbn in Hne. rewrite Z.eqb_refl in Hne. discriminate.
+    + intro H. apply in_map_iff in H as [[i' k'] [E' Hin]]. apply filter_In in Hin as [Hin Hne]. cbn in Hne.
+      apply filter_In. split; [apply Hx; rewrite <- E'; change (swap_pair (i', k')) with (swap_pair (i', k')); apply in_map; assumption|].
+      rewrite <- E'. cbn. destruct (Z.eqb_spec k' k) as [->|]; [|reflexivity]. exfalso.
+      (* two records with the same owner-key: excluded by NoDup (map snd) *)
+      assert (i' = i) by exact (nodup_snd_unique (id_records s) k i' i Hk Hin Hik).
+      subst i'. rewrite Z.eqb_refl in Hne. discriminate.
+    + apply filter_In in H as [H _]. apply Hr in H. lia.
+    + apply filter_In in H as [H _]. apply Hr in H. lia.
+    + assumption.
+    + apply NoDup_map_filter; assumption.
+Qed.
+
+Lemma id_run_inv : forall ops, id_inv (id_run ops).
+Proof.
+  intro ops. unfold id_run. assert (H0 : id_inv id_init).
+  { unfold id_inv, id_wf, id_init; cbn. repeat split; try constructor; try tauto; try lia; contradiction. }
+  revert H0. generalize id_init. induction ops as [|o ops IH]; intros s Hs; cbn; [assumption|]. apply IH. apply id_step_inv. assumption.
+Qed.
+
+(* the identity registrar round-trips after EVERY history of registrations and deletions *)
+Lemma roundtrip_id_after_history : forall ops, let s := id_run ops in
+  id_records (reimport_id s) = id_records s /\ id_last (reimport_id s) = id_last s /\
+  (forall e, In e (id_index (reimport_id s)) <-> In e (id_index s)).
+Proof. intros ops s. apply roundtrip_id. exact (proj1 (id_run_inv ops)). Qed.
+
+(* ================================================================ 2j. histories: distributor *)
+
+(* one block: the votes of the signers are recorded at the new height, the votes that left the snap window
+   are pruned, the proposer is remembered *)
+Record d_block := mkDBlock { b_proposer : Z; b_signers : list Z; b_fees : Z }.
+Definition d_step (hs : Z * distr_state) (b : d_block) : Z * distr_state :=
+  let (h0, s) := hs in let h := h0 + 1 in
+  let vs := fold_left set_vote (map (fun v => (v, h)) (b_signers b)) (d_votes s) in
+  (h, mkDistr (d_treasury s + b_fees b) (d_snap_period s)
+              (filter (fun v => negb (snd v + d_snap_period s <=? h)) vs) (Some (b_proposer b)) (d_year_snapshot s) (d_periodic_snapshot s)).
+Definition d_init (snap : Z) : Z * distr_state := (0, mkDistr 0 snap [] None (0, 0) (0, 0)).
+Definition d_run (snap : Z) (bs : list d_block) : Z * distr_state := fold_left d_step bs (d_init snap).
+
+Lemma set_vote_nodup : forall l v, NoDup l -> NoDup (set_vote l v).
+Proof.
+  intros l v H. unfold set_vote. destruct (vote_mem v l) eqn:E; [assumption|].
+  apply NoDup_app_one; [assumption|]. intro Hin. apply vote_mem_spec in Hin. congruence.
+Qed.
+Lemma fold_set_vote_nodup : forall vs l, NoDup l -> NoDup (fold_left set_vote vs l).
+Proof. induction vs as [|v vs IH]; intros l H; cbn; [assumption|]. apply IH. apply set_vote_nodup. assumption. Qed.
+
+Lemma d_step_nodup : forall hs b, NoDup (d_votes (snd hs)) -> NoDup (d_votes (snd (d_step hs b))) /\ d_proposer (snd (d_step hs b)) = Some (b_proposer b).
+Proof.
+  intros [h s] b H. cbn. split; [|reflexivity]. apply NoDup_filter. apply fold_set_vote_nodup. assumption.
+Qed.
+
+(* after EVERY non-empty history of blocks (any proposers, signer lists -- repetitions included --, fees, any
+   snap period) the distributor state round-trips exactly *)
+Lemma roundtrip_distr_after_history : forall snap bs, bs <> [] -> reimport_distr (snd (d_run snap bs)) = Ok (snd (d_run snap bs)).
+Proof.
+  intros snap bs Hne. unfold d_run.
+  assert (H : forall bs hs, NoDup (d_votes (snd hs)) -> bs <> [] ->
+              NoDup (d_votes (snd (fold_left d_step bs hs))) /\ exists p, d_proposer (snd (fold_left d_step bs hs)) = Some p).
+  { induction bs0 as [|b bs0 IH]; intros hs Hn Hb; [congruence|]. cbn [fold_left].
+    destruct (d_step_nodup hs b Hn) as [Hn' Hp]. destruct bs0 as [|b' bs0'].
+    - cbn. split; [assumption|eauto].
+    - apply IH; [assumption|discriminate]. }
+  destruct (H bs (d_init snap)) as [Hn [p Hp]]; [cbn; constructor|assumption|].
+  eapply roundtrip_distr; eassumption.
+Qed.
+
+(* ================================================================ 2k. histories: multistaking *)
+
+Inductive ms_op := MPool (validator : Z) | MUndelegate (owner : Z) | MClaim (id : Z).
+Definition ms_step (s : ms_state) (o : ms_op) : ms_state :=
+  match o with
+  | MPool v => new_pool s v
+  | MUndelegate o => undelegate s o
+  | MClaim i => mkMsState (last_pool s) (last_undel s) (pools s) (filter (fun e => negb (fst e =? i)) (undels s)) (delegators s) (compound s)
+  end.
+Definition ms_init : ms_state := mkMsState 0 0 [] [] [] [].
+Definition ms_run (ops : list ms_op) : ms_state := fold_left ms_step ops ms_init.
+Definition ms_inv (s : ms_state) : Prop :=
+  0 <= last_pool s /\ 0 <= last_undel s /\ (forall i, In i (map fst (pools s)) -> i <= last_pool s) /\ (forall i, In i (map fst (undels s)) -> i <= last_undel s).
+
+Lemma in_map_fst_upsert : forall l k v i, In i (map fst (upsert k v l)) -> i = k \/ In i (map fst l).
+Proof.
+  induction l as [|[k' v'] l IH]; cbn; intros k v i H; [destruct H as [<-|[]]; auto|].
+  destruct (Z.eqb_spec k' k) as [->|]; cbn in H.
+  - destruct H as [<-|H]; auto.
+  - destruct H as [<-|H]; [auto|]. apply IH in H as [->|H]; auto.
+Qed.
+Lemma ms_step_inv : forall s o, ms_inv s -> ms_inv (ms_step s o).
+Proof.
+  intros s o (H1 & H2 & H3 & H4). destruct o as [v|o|i]; unfold ms_inv; cbn [ms_step new_pool undelegate last_pool last_undel pools undels]; repeat split; try lia; try assumption.
+  - intros i Hi. rewrite map_app in Hi. apply in_app_or in Hi as [Hi|Hi]; [apply H3 in Hi; lia|]. cbn in Hi. destruct Hi as [<-|[]]. lia.
+  - intros i Hi. apply in_map_fst_upsert in Hi as [->|Hi]; [lia|apply H4 in Hi; lia].
+  - intros j Hj. apply in_map_iff in Hj as [e [<- He]]. apply filter_In in He as [He _]. apply H4. apply in_map. assumption.
+Qed.
+Lemma ms_run_inv : forall ops, ms_inv (ms_run ops).
+Proof.
+  intro ops. unfold ms_run. assert (H0 : ms_inv ms_init) by (unfold ms_inv, ms_init; cbn; repeat split; try lia; contradiction).
+  revert H0. generalize ms_init. induction ops as [|o ops IH]; intros s Hs; cbn; [assumption|]. apply IH. apply ms_step_inv. assumption.
+Qed.
+Lemma zmax_list_le : forall l b, 0 <= b -> (forall i, In i l -> i <= b) -> zmax_list l <= b.
+Proof.
+  induction l as [|a l IH]; intros b Hb H; [cbn; lia|]. change (zmax_list (a :: l)) with (Z.max a (zmax_list l)).
+  assert (a <= b) by (apply H; left; reflexivity). assert (zmax_list l <= b) by (apply IH; [assumption|intros; apply H; right; assumption]). lia.
+Qed.
+(* after EVERY history of pool creations, undelegations and claims: pools and pending undelegations are
+   restored exactly, the re-derived counters never exceed the original ones (they are equal unless the record
+   with the highest id was claimed), and -- already proved for every state -- the next ids are fresh *)
+Lemma reimport_ms_after_history : forall ops, let s := ms_run ops in
+  pools (reimport_ms true s) = pools s /\ undels (reimport_ms true s) = undels s /\
+  last_pool (reimport_ms true s) <= last_pool s /\ last_undel (reimport_ms true s) <= last_undel s.
+Proof.
+  intros ops s. destruct (ms_run_inv ops) as (H1 & H2 & H3 & H4). fold s in H1, H2, H3, H4.
+  unfold reimport_ms, import_ms, export_ms. cbn [pools undels last_pool last_undel fst snd].
+  repeat split; apply zmax_list_le; assumption.
+Qed.
 
 (* ================================================================ 2d. staking *)
 
